@@ -26,6 +26,8 @@ type reuseScn struct {
 	Stale      []string `json:"stale"`
 	StaleEarly bool     `json:"stale_early,omitempty"` // stale calls may start before B exists
 	Kick       bool     `json:"kick,omitempty"`        // Trigger the poller after A's close so that the slot is spliced back before B opens
+	Fill       bool     `json:"fill,omitempty"`        // the poller's spare slots are used up before B opens (B's alloc sits on a block boundary)
+	HoldBatch  bool     `json:"hold_batch,omitempty"`  // the poller is held between the fetch and the dispatch of the batch with A's close event until B is open
 }
 
 var reuseStaleOps = []string{"release", "close", "next", "peek", "skip", "len", "flush", "mallocflush", "write", "wbinary", "setonrequest", "addcb", "settimeout", "isactive", "slice", "detach", "readbyte", "until"}
@@ -36,7 +38,9 @@ func genReuseScn(t *rapid.T, excl map[string]bool) reuseScn {
 	for i, n := 0, rapid.IntRange(0, 3).Draw(t, "nawrites"); i < n; i++ {
 		s.AWrites = append(s.AWrites, rapid.IntRange(1, 30).Draw(t, "aw"))
 	}
-	s.AClose = rapid.SampledFrom([]string{"user", "peer"}).Draw(t, "aclose")
+	s.AClose = rapid.SampledFrom([]string{"user", "peer", "both", "both"}).Draw(t, "aclose")
+	s.Fill = rapid.IntRange(0, 2).Draw(t, "fill") == 0
+	s.HoldBatch = rapid.IntRange(0, 2).Draw(t, "holdbatch") == 0
 	for i, n := 0, rapid.IntRange(1, 4).Draw(t, "nbwrites"); i < n; i++ {
 		s.BWrites = append(s.BWrites, rapid.IntRange(1, 30).Draw(t, "bw"))
 	}
@@ -89,6 +93,20 @@ func runReuse(t *rapid.T, s reuseScn, replay []vs.Step) *reuseOutcome {
 	}
 	a.init(&netFD{fd: ar, network: "unix", remoteAddr: &UnixAddr{}, localAddr: &UnixAddr{}}, aopts)
 	a.AddCloseCallback(func(Connection) error { w.ev("A:cb"); return nil })
+	if s.Fill {
+		// use up the spare slots of the poller: the next alloc (B's) has to get its slot from somewhere else
+		for w.polls[0].opcache.first != nil {
+			w.polls[0].Alloc()
+		}
+	}
+	if s.HoldBatch {
+		// close/reopen placed between the poller's fetch and its dispatch: once A's peer has closed, the poller is
+		// held at the first slot-token step of its batch until B is open (or nobody else can move)
+		pDo := e2PointID("fd_operator.go", "CompareAndSwapInt32(&op.state, 1, 2)")
+		w.hold = func(act *vs.Actor) bool {
+			return act.Name == "poller0" && act.Point() == pDo && w.count("A:peer-close") > 0 && w.count("B:open") == 0
+		}
+	}
 	aClosed := func() bool { return !a.IsActive() && w.count("A:cb") > 0 && atomic.LoadUint32(&a.closed) > 0 }
 	var b *connection
 	bOpen := false
@@ -135,14 +153,14 @@ func runReuse(t *rapid.T, s reuseScn, replay []vs.Step) *reuseOutcome {
 			syscall.Write(aw, make([]byte, k))
 			w.ev("A:peer-write")
 		}
-		if s.AClose == "peer" {
+		if s.AClose == "peer" || s.AClose == "both" {
 			vs.Yield(-61)
 			w.peerClose(aw)
 			w.ev("A:peer-close")
 		}
 	})
 	w.s.Go("userA", false, func() {
-		if s.AClose == "user" {
+		if s.AClose == "user" || s.AClose == "both" {
 			vs.Yield(-62)
 			w.ev("A:user-close")
 			a.Close()
@@ -289,6 +307,12 @@ func reuseProperty(st *vStats) func(t *rapid.T) {
 		}
 		if o.reusedFD {
 			st.class("fd-number-reused")
+		}
+		if s.Fill {
+			st.class("spare-slots-exhausted")
+		}
+		if o.w.heldBack > 0 {
+			st.class("batch-held-across-reopen")
 		}
 		if len(o.stalePanics) > 0 {
 			st.class("stale-call-panicked")
